@@ -57,7 +57,7 @@ func runC01(c *core.Ctx) {
 	d := descOf(p, argv)
 	c.Journal(d)
 	t0 := time.Now()
-	obs := drive.Run(drive.Single(p), argv)
+	obs := runOnceOrTwice(c, p, argv, cfg)
 	if c.Replay {
 		fmt.Printf("library: %v accepted=%v err=%v\n", time.Since(t0), obs.Accepted(), obs.Err)
 	}
